@@ -245,6 +245,8 @@ inductive Behaviour where
   | panic
   /-- blocks until the request context is cancelled, then answers like `echo` -/
   | waitctx
+  /-- (round 5) results / errors that are zero values of their Go type: `0`, `""`, `false`, `&Error{0, "", 0}` -/
+  | zeroint | emptystr | falseres | failzero
   deriving Repr, DecidableEq, Inhabited
 
 def behave (b : Behaviour) (args : List Json) : HResult :=
@@ -258,6 +260,10 @@ def behave (b : Behaviour) (args : List Json) : HResult :=
   | .waitctx => { result := some (.arr args) }
   | .unmarshalable => { result := some .null, marshals := false }
   | .panic => { panics := true }
+  | .zeroint => { result := some (.num "0") }
+  | .emptystr => { result := some (.str "") }
+  | .falseres => { result := some (.bool false) }
+  | .failzero => { error := some { code := 0, message := "", data := some (.num "0") } }
 
 def goEnv (strictAny : Bool) (behaviours : List (String × Behaviour)) (nullNotGiven : Bool := true) : Env where
   nullNotGiven := nullNotGiven
